@@ -32,6 +32,9 @@ type pkgInfo struct {
 	files map[string]*ast.File
 }
 
+// generators: one entry per coq/Generated/<name>.v, registered by the gen_*.go files compiled into this binary
+var generators = map[string]func(*out){}
+
 var (
 	repo    string
 	pkgs    = map[string]*pkgInfo{}
